@@ -420,6 +420,18 @@ theorem hold_success_only_own_timer {w : World} (h : AllInv w) {e : HTag} (he : 
     (hf : (w.proc p).blocked = some (.hold k)) : e.item.a = aTime ∧ e.key = k :=
   h.hold_success_only_own_timer he hc hk hb hf
 
+/-- end to end: a process executes `hold d` (d ≥ 0) at time t₀. In any later state `w` (satisfying the invariant) in
+    which it is still suspended in that hold, if the event `e` that `dispatch` takes next (`e.key = w'.ev.current`) is
+    addressed to the process, is of a kind on which the dispatcher resumes a process, and carries SUCCESS, then the clock
+    after that dispatch is exactly t₀ + d: a hold returns SUCCESS at start + duration and at no other time -/
+theorem hold_success_exactly_at_deadline {w0 : World} (p : Pid) {d : Int} (hd : 0 ≤ d) (hi : EvInv w0.ev) {w w' : World}
+    (hreach : Reach (execCmd w0 p (.hold d)).1 w) (hinv : AllInv w) (hdisp : dispatch w = some w')
+    (hf : (w.proc p).blocked = some (.hold (w0.ev.counter + 1)))
+    {e : HTag} (he : e ∈ w.ev.pending) (hcur : e.key = w'.ev.current) (hb : e.item.b = p + 1)
+    (hk : isResuming e.item.a) (hc : e.item.c = 0) : w'.now = w0.now + d ∧ e.item.a = aTime := by
+  obtain ⟨ha, hkey⟩ := hinv.hold_success_only_own_timer he hc hk hb hf
+  exact ⟨(S3.hold_exact p hd hi hreach hdisp (by rw [← hcur, hkey])).1, ha⟩
+
 /- non-vacuity: a world with two processes (one with a program that holds and arms a timer), a guard with an empty
    well-formed waiting list, a condition on that guard and a pending start event satisfies `InitOkG` and `SideOk`,
    hence `AllInv`, and so does every state of its run -/
